@@ -1,7 +1,7 @@
 (* C05 lemmas. *)
 From Slsk Require Import Base.Tac.
 From Coq Require Import Permutation Sorting.Sorted.
-From SlskGen Require Import PrioGen.
+From SlskGen Require Import PrioGen SlotGen.
 From Slsk Require Import C05.Model.
 Arguments rank : simpl never.
 Arguments rank_of : simpl never.
@@ -392,6 +392,17 @@ Proof.
       unfold free in F. lia.
 Qed.
 
+Lemma started_no_starting : forall c ts, no_starting ts = true -> started c ts = select c ts.
+Proof.
+  intros c ts NS. unfold started. destruct CYCLE_GUARD_TR; [|reflexivity].
+  assert (H : forall t, In t (select c ts) -> negb (is_starting t) = true).
+  { intros t Ht. assert (In t ts) by (apply (select_bound c ts); exact Ht).
+    unfold no_starting in NS. rewrite forallb_forall in NS. specialize (NS t H).
+    unfold is_starting. destruct (tst t); auto. }
+  induction (select c ts) as [|a r IH]; [reflexivity|]. cbn. rewrite (H a (or_introl eq_refl)).
+  f_equal. apply IH. intros; apply H; cbn; auto.
+Qed.
+
 Lemma setslots_inv : forall c ts n, Inv (mkS c ts) ->
   Inv (mkS (mkCfg n (info c)) (map (fun t => mkT (tid t) (tuser t) (tst t) (busy t)) ts)).
 Proof.
@@ -417,7 +428,7 @@ Proof.
   intros [c ts] e I A. destruct e; cbn [step fst mcfg mts] in *.
   - apply queue_inv. exact I.
   - apply map_inv; [apply keeps_upd, keeps_requeue|exact I].
-  - apply cycle_inv; auto.
+  - rewrite started_no_starting by auto. apply cycle_inv; auto.
   - apply map_inv; [apply keeps_upd, keeps_first|exact I].
   - apply map_inv; [apply keeps_first|exact I].
   - apply map_inv; [apply keeps_upd, keeps_fin|exact I].
@@ -507,9 +518,18 @@ Definition round_fun (ids : list nat) (t : transfer) : transfer :=
   let t2 := match tst t1 with Starting => set_st Init t1 | _ => t1 end in
   match tst t2 with Init | Uploading => set_st Other t2 | _ => t2 end.
 
-Lemma round_eq : forall s, round s = mkS (mcfg s) (map (round_fun (map tid (select (mcfg s) (mts s)))) (mts s)).
+Lemma idle_no_starting : forall s, idle s -> no_starting (mts s) = true.
 Proof.
-  intros [c ts]. unfold round. cbn. f_equal. unfold finish_all, mark. rewrite !map_map. reflexivity.
+  intros s I. unfold no_starting. apply forallb_forall. intros t Ht. specialize (I t Ht).
+  unfold busy in I. destruct (tst t); auto; discriminate.
+Qed.
+
+Lemma round_eq : forall s, idle s ->
+  round s = mkS (mcfg s) (map (round_fun (map tid (select (mcfg s) (mts s)))) (mts s)).
+Proof.
+  intros [c ts] I. unfold round. cbn [step fst mcfg mts].
+  rewrite (started_no_starting c ts (idle_no_starting (mkS c ts) I)).
+  cbn. f_equal. unfold finish_all, mark. rewrite !map_map. reflexivity.
 Qed.
 
 Lemma round_fun_spec : forall ids t,
@@ -531,7 +551,7 @@ Lemma round_progress : forall s, idle s -> 1 <= slots (mcfg s) ->
   idle (round s) /\ mcfg (round s) = mcfg s /\
   (0 < n_waiting s -> n_waiting (round s) < n_waiting s) /\ n_waiting (round s) <= n_waiting s.
 Proof.
-  intros s I S. rewrite round_eq. cbn [mcfg mts]. set (ids := map tid (select (mcfg s) (mts s))).
+  intros s I S. rewrite (round_eq s I). cbn [mcfg mts]. set (ids := map tid (select (mcfg s) (mts s))).
   assert (M : forall x, In x (mts s) ->
      is_queued (round_fun ids x) && negb (offline (mcfg s) (tuser (round_fun ids x))) = true ->
      is_queued x && negb (offline (mcfg s) (tuser x)) = true).
@@ -574,4 +594,105 @@ Proof.
   assert (S' : 1 <= slots (mcfg (round s))) by (rewrite C'; exact S).
   specialize (IH (round s) I' S').
   destruct (Nat.eq_dec (n_waiting s) 0) as [Z|NZ]; [lia|]. specialize (Lt ltac:(lia)). lia.
+Qed.
+
+(* ---- what the slot guard of the upload loop buys: cycles may run again before the created tasks
+   started, as long as every upload with a pending task is still inside the slice -------------------- *)
+Definition starting_selected (c : cfg) (ts : list transfer) : bool :=
+  forallb (fun t => negb (is_starting t) || memb (tid t) (map tid (select c ts))) ts.
+
+Fixpoint a1g (s : mstate) (evs : list event) : bool :=
+  match evs with
+  | [] => true
+  | e :: r => (match e with Cycle => starting_selected (mcfg s) (mts s) | _ => true end) && a1g (fst (step s e)) r
+  end.
+
+Lemma filter_le_sum : forall (A : Type) (p q r : A -> bool) l,
+  (forall x, In x l -> p x = true -> q x = true \/ r x = true) ->
+  length (filter p l) <= length (filter q l) + length (filter r l).
+Proof.
+  intros A p q r l. induction l as [|x l IH]; intros H; cbn; [lia|].
+  assert (IH' := IH (fun y Hy => H y (or_intror Hy))).
+  destruct (p x) eqn:P; [|destruct (q x), (r x); cbn; lia].
+  destruct (H x (or_introl eq_refl) P) as [Q|R]; [rewrite Q|rewrite R]; cbn; [destruct (r x)|destruct (q x)]; cbn; lia.
+Qed.
+
+Lemma filter_map_len : forall (A B : Type) (p : B -> bool) (g : A -> B) (l : list A),
+  length (filter p (map g l)) = length (filter (fun x => p (g x)) l).
+Proof. intros A B p g l. induction l as [|x l IH]; cbn; [reflexivity|]. destruct (p (g x)); cbn; lia. Qed.
+
+Lemma started_incl : forall c ts t, In t (started c ts) -> In t (select c ts).
+Proof. intros c ts t. unfold started. destruct CYCLE_GUARD_TR; [|auto]. intros H. apply filter_In in H. tauto. Qed.
+
+Lemma cycle_inv_guarded : forall c ts, CYCLE_GUARD_TR = true -> Inv (mkS c ts) -> starting_selected c ts = true ->
+  Inv (mkS c (mark (map tid (started c ts)) ts)).
+Proof.
+  intros c ts GT [I1 I2 I3] SS. cbn [mts mcfg] in *.
+  set (ids := map tid (started c ts)).
+  set (g := fun t => if memb (tid t) ids then set_st Starting t else t).
+  assert (F2 : forall t, In t ts -> memb (tid t) ids = true -> In t (select c ts)).
+  { intros t Ht M. apply marked_in_sel; auto. apply memb_In in M. apply memb_In.
+    apply in_map_iff in M. destruct M as (s1 & E & Hs). rewrite <- E. apply in_map. apply started_incl. exact Hs. }
+  assert (G : forall t, In t ts -> busy (g t) = true -> In t (select c ts) \/ processing t = true).
+  { intros t Ht B. unfold g in B. destruct (memb (tid t) ids) eqn:M; [left; auto|].
+    unfold starting_selected in SS. rewrite forallb_forall in SS. specialize (SS t Ht).
+    unfold busy in B. unfold is_starting in SS. unfold processing. destruct (tst t) eqn:E; try discriminate.
+    - left. cbn in SS. apply marked_in_sel; auto.
+    - right. reflexivity.
+    - right. reflexivity. }
+  assert (Ta : forall t, tid (g t) = tid t /\ tuser (g t) = tuser t).
+  { intros t. unfold g. destruct (memb (tid t) ids); cbn; auto. }
+  constructor; cbn [mts mcfg].
+  - unfold ids_ok, mark in *. rewrite map_tid, map_length; [exact I1|]. intros t. apply Ta.
+  - intros t1 t2 H1 H2 B1 B2 E. unfold mark in H1, H2. apply in_map_iff in H1, H2.
+    destruct H1 as (a & E1 & Ha), H2 as (b & E2 & Hb).
+    change (g a = t1) in E1. change (g b = t2) in E2. subst t1 t2.
+    destruct (Ta a) as (Ta1 & Ua), (Ta b) as (Tb1 & Ub). rewrite Ta1, Tb1. rewrite Ua, Ub in E.
+    destruct (G a Ha B1) as [Sa|Pa], (G b Hb B2) as [Sb|Pb].
+    + f_equal. apply (NoDup_map_inj _ _ tuser (select c ts)); [apply select_nodup_users|exact Sa|exact Sb|exact E].
+    + exfalso. destruct (select_bound c ts) as (_ & _ & S). destruct (S a Sa) as (_ & _ & _ & _ & _ & Nb).
+      apply Nb. rewrite E. unfold busy_users. apply in_map. apply filter_In. auto.
+    + exfalso. destruct (select_bound c ts) as (_ & _ & S). destruct (S b Sb) as (_ & _ & _ & _ & _ & Nb).
+      apply Nb. rewrite <- E. unfold busy_users. apply in_map. apply filter_In. auto.
+    + apply I2; auto using processing_busy.
+  - unfold n_busy in *. cbn [mts mcfg] in *. fold ids. destruct (free c ts) eqn:F.
+    + assert (E : ids = []).
+      { unfold ids, started. rewrite select_firstn, F. cbn. destruct CYCLE_GUARD_TR; reflexivity. }
+      rewrite E, mark_nil. exact I3.
+    + left. unfold mark. fold g. rewrite filter_map_len.
+      pose proof (filter_le_sum _ (fun t => busy (g t)) processing
+                    (fun t => memb (tid t) (map tid (select c ts))) ts) as L1.
+      assert (L1' := L1 (fun t Ht B => match G t Ht B with
+                                       | or_introl Hs => or_intror (proj2 (memb_In _ _) (in_map tid _ _ Hs))
+                                       | or_intror Hp => or_introl Hp end)).
+      pose proof (marked_count (map tid (select c ts)) ts (ids_nodup ts I1)) as L2.
+      assert (L3 : length (map tid (select c ts)) <= S n) by (rewrite map_length, <- F; apply select_bound).
+      unfold free in F. lia.
+Qed.
+
+Lemma step_inv_guarded : forall s e, CYCLE_GUARD_TR = true -> Inv s ->
+  (e = Cycle -> starting_selected (mcfg s) (mts s) = true) -> Inv (fst (step s e)).
+Proof.
+  intros [c ts] e GT I A. destruct e; try (apply step_inv; [exact I|discriminate]).
+  cbn [step fst mcfg mts] in *. apply cycle_inv_guarded; auto.
+Qed.
+
+Lemma slots_inv_guarded : forall evs s, CYCLE_GUARD_TR = true -> Inv s -> a1g s evs = true ->
+  let s' := run s evs in
+  (n_processing s' <= slots (mcfg s') \/
+   forall t, In t (mts s') -> processing t = true -> told t = true) /\
+  NoDup (map tuser (filter processing (mts s'))).
+Proof.
+  intros evs s GT I A s'.
+  assert (R : Inv s').
+  { unfold s'. clear s'. revert s I A. induction evs as [|e r IH]; intros s I A; [exact I|].
+    cbn [a1g] in A. apply andb_true_iff in A. destruct A as (A1 & A2). cbn [run].
+    apply IH; [|exact A2]. apply step_inv_guarded; auto. intros ->. exact A1. }
+  destruct R as [I1 I2 I3]. split.
+  - destruct I3 as [L|Rr].
+    + left. unfold n_processing, n_busy in *. etransitivity; [|exact L].
+      apply filter_le. intros x _. apply processing_busy.
+    + right. intros t Ht P. apply Rr; auto. apply processing_busy. exact P.
+  - apply nodup_users; [apply ids_nodup; exact I1|].
+    intros t1 t2 H1 H2 P1 P2 E. apply I2; auto using processing_busy.
 Qed.
